@@ -137,8 +137,13 @@ func BuildRaw(begin, rest string) []byte {
 
 // Check verifies the framing of a complete message with this package's own arithmetic:
 // 8 first, 9 second with the right count, 35 third, 10 last with the right sum.
-func Check(raw []byte) error {
-	fs, err := Scan(raw, true)
+func Check(raw []byte) error { return check(raw, false) }
+
+// CheckData is Check with length-prefixed data fields honoured while scanning.
+func CheckData(raw []byte) error { return check(raw, true) }
+
+func check(raw []byte, dataAware bool) error {
+	fs, err := Scan(raw, dataAware)
 	if err != nil {
 		return err
 	}
@@ -168,7 +173,7 @@ func Check(raw []byte) error {
 }
 
 // Header and trailer tags per the FIX specifications (4.0–5.0SP2 / FIXT.1.1 standard header).
-var headerTags = map[int]bool{8: true, 9: true, 35: true, 49: true, 56: true, 115: true, 128: true, 90: true, 91: true, 34: true, 50: true, 142: true, 57: true, 143: true, 116: true, 144: true, 129: true, 145: true, 43: true, 97: true, 52: true, 122: true, 212: true, 213: true, 347: true, 369: true, 370: true, 627: true, 628: true, 629: true, 630: true, 1128: true, 1129: true, 1137: true, 1156: true}
+var headerTags = map[int]bool{8: true, 9: true, 35: true, 49: true, 56: true, 115: true, 128: true, 90: true, 91: true, 34: true, 50: true, 142: true, 57: true, 143: true, 116: true, 144: true, 129: true, 145: true, 43: true, 97: true, 52: true, 122: true, 212: true, 213: true, 347: true, 369: true, 370: true, 627: true, 628: true, 629: true, 630: true, 1128: true, 1129: true, 1156: true}
 var trailerTags = map[int]bool{93: true, 89: true, 10: true}
 
 func IsHeader(tag int) bool  { return headerTags[tag] }
